@@ -82,6 +82,9 @@ def prologue(ctx, P):
         ctx.violation(ob, "R10.prologue", "Simulation.find_next_active_node", "%s via %s" % (kind, via), "random-in-prologue", "the prologue reaches a random source other than the tie-break", loc(node))
 
 
+REPORT_FIELDS = {"total_time", "busy_time", "server_utilisation"}      # statistics finalised at a stop (busy_time's accumulation is finding K-05a)
+
+
 def _epilogue_functions(P):
     """functions reachable from Simulation.wrap_up_servers through calls on self / on the nodes, restricted to the Node family + Simulation"""
     G = callgraph(P)
@@ -132,6 +135,10 @@ def epilogue(ctx, P):
                     field = tt.split(".")[-1]
                     reads_self = any(isinstance(y, ast.Attribute) and unparse(y) == tt for y in ast.walk(x.value))
                     ob.ok("%s:%s" % (q, tt), "%s: %s" % (q, unparse(x)[:70]))
+                    if field not in REPORT_FIELDS and not reads_self:
+                        ctx.violation(ob, "R10.epilogue", q, "%s" % tt, "epilogue-writes-simulation-state",
+                                      "the stop epilogue assigns `%s`, a field the event loop reads: a run that is paused and resumed then differs from an unsplit run "
+                                      "(only the statistics fields %s may be written at a stop)" % (tt, ", ".join(sorted(REPORT_FIELDS))), loc(x))
                     if reads_self:
                         ctx.violation(ob, "R10.epilogue", q, "%s" % tt, "accumulation",
                                       "`%s` reads the field it writes: it accumulates at every stop, so the statistics of a split run differ from the unsplit one" % unparse(x)[:80], loc(x))
